@@ -83,7 +83,7 @@ def run(ctx, model):
         cls = getattr(DataTypes, n)
         t = DataTypes.get_type(cls.code)
         ctx.case("get_type", ("get_type", cls.code))
-        if t is None or t.code != cls.code:
+        if t is None or getattr(t, "code", None) != cls.code:
             ctx.violation("get_type-wrong-code", {"code": cls.code}, "get_type(%#x) -> %r" % (cls.code, t))
     # status texts
     from pycomm3.packets.util import get_service_status
